@@ -25,7 +25,7 @@ ASSUMPTIONS = ["work is measured as monitored events (PY_START + backward JUMP) 
                "evaluation of the parsed programs is itself budgeted (2e5 events); programs exceeding it are not compared by evaluation"]
 MIN_COUNTS = {"quick": {"nontrivial": 20000, "reparsed_compared": 20000, "evaluated_compared": 3000},
               "thorough": {"nontrivial": 150000, "reparsed_compared": 150000, "evaluated_compared": 20000}}
-CASE_TIMEOUT = 600
+CASE_TIMEOUT = 150
 MEM_LIMIT_GB = 6
 MIN_SHARD = 4
 EXHAUSTIVE = {"quick": False, "thorough": False}
@@ -271,6 +271,24 @@ def _has_io(s):
     return any(t in s for t in (".sys", ".rl", ".r(", ".fc", ".tc", ".ic", ".oc", ".ac", ".mi", ".x(", ".df", ".l(", ".py", ".cli", ".srv", ".timer", ".web", ".ws", ".rn", ".pc", ".E(", ".p(", ".d(", ".w(", ".bkf", ".rs("))
 
 
+def on_case_killed(rc, stderr, note):
+    """A batch that never came back.  When the watchdog's stack dump shows the process inside the parser (and no monitored event
+    stopped it: the time went into native code, e.g. a regular expression), the string named in the note was being parsed
+    without end - which is what the property forbids.  Anything else (a crash elsewhere, memory) stays inconclusive."""
+    if not stderr or "Timeout" not in stderr or note is None:
+        return None
+    frames = [ln for ln in stderr.splitlines() if ln.strip().startswith("File ")]
+    if not frames:
+        return None
+    top = frames[0]
+    inner = [ln for ln in frames[:6] if "/klongpy/parser.py" in ln or "/klongpy/interpreter.py" in ln]
+    if not inner or "/vf/" in top or "_eval_prog" in stderr.split("run_case")[0]:
+        return None
+    fn = inner[0].split(" in ")[-1].strip()
+    return {"sig": "no-return|%s" % fn, "what": "parsing %r (%d chars) did not return within the case time limit of %d s; the stack was inside %s and no step budget fired (time spent in native code)" % (
+        note[:80], len(note), CASE_TIMEOUT, fn), "detail": {"text": note, "stack": frames[:8]}}
+
+
 def run_case(ctx, case):
     sb = ctx["sb"]
     res = {"counters": {}, "violations": [], "evaluations": len(case["strings"])}
@@ -280,6 +298,8 @@ def run_case(ctx, case):
     for s in case["strings"]:
         n = len(s)
         B = budget(n)
+        if "_note" in ctx:
+            ctx["_note"](s)
         k1 = kl.new()
         pre = kl.user_vars(k1)
         st, v, ev = sb.run(B, k1.prog, s)
